@@ -10,6 +10,30 @@ COMMON_TRUSTED = [
 NOT_APPLICABLE = {}
 
 PROPS = {
+    "C07": dict(
+        level_text="Proof about translated code: extract/arith.go translates the kernels of engine/number.go (integer kernels with explicit 64-bit wrap-around, Go panics of / % << >> as values, float guards over an abstract FloatOps, the dispatch tables, the intPow loop) into Lean definitions on every run; for ALL operand pairs the integer functors + - * // div mod rem abs sign min max ^ - \\ /\\ \\/ xor and shifts are proved to return the exact unbounded-integer result or int_overflow/zero_divisor exactly when the specification (Spec/ExactArith over Int) says so, never a panic; comparisons are the Int relations / the float relation after conversion; float guards (overflow iff the IEEE result is infinite, float-to-integer exact or int_overflow) are proved over the FloatOps laws; eval over whole integer expression trees equals the specification. The translated kernels are additionally run against the real functions on the complete boundary grid (c07.kernels) and the hand model of eval/is/comparison against the real interpreter on random expression trees (c07.queries), with an independent oracle (exact integers, hardware IEEE floats).",
+        level_note="Trusted: Lean kernel; the translator extract/arith.go and the hand-written semantics of Go's int64 operators in Model/ArithBase.lean (both cross-checked by c07.kernels on the boundary grid); FloatOps laws (IEEE facts about comparison with 2^63 and exact float-to-int conversion) are hypotheses of the float theorems; float VALUES are hardware on both sides; values of transcendental library functions are not compared (guards only); eval/Is/comparison dispatch is hand-modelled (tie: regenerated source text + c07.queries). Known, test-pinned deviations D21 ((±1)^minInt) and D22 (1.0 + MaxFloat64 raises float_overflow) are listed findings.",
+        technique="Go->Lean translation of number.go (regenerated every run) + Lean 4 proofs for all inputs (omega, induction over the intPow loop and over expression trees) + model/implementation correspondence on the exhaustive boundary grid and random expression trees",
+        lean_module="PrologVerif.Properties.C07",
+        ns="PrologVerif.C07",
+        streams=[dict(name="c07.kernels", quick=3000, thorough=200000),
+                 dict(name="c07.queries", quick=6000, thorough=150000)],
+        thorough_seeds=2,
+        rule="c07.kernels: EXHAUSTIVE boundary grid (tag grid=full): every unary kernel/functor on every grid value and every binary kernel/functor/comparison on every ordered pair of G = {0, ±1, ±2, ±3, ±7, ±2^31±{0,1}, ±2^32, ±2^53±{0,1}, ±2^62±{0,1}, minInt, minInt+1, maxInt-1, maxInt} ∪ shift counts and sqrt(2^63) neighbours ∪ random (8 quick / 64 thorough), the float grid {±0, ±subnormals, ±min normal, ±1(±ε), ±2^±k, ±2^53, ±2^63(1±ε), ±Max and neighbours, Max/2, Max/3, …} squared, core integers × floats in both orders, plus n random pairs (grid=random). c07.queries: random expression trees of depth ≤ 4 over those leaves through the real parser (operator and canonical syntax), X is Expr (70%) and E1 op E2, one in twelve malformed (unbound variable, atom, unknown functor, arity 3). Non-trivial = an error outcome, an integer operand/result of magnitude ≥ 2^31, or a float that is not a small integer (queries: additionally ≥ 3 nodes); distinct = distinct case text",
+        trusted=[
+            "translated on every run by extract/arith.go (theorems are about the code's own text): addI subI mulI intDivI remI modI negI absI signI posI intFloorDivI intPow (loop -> fuel recursion) integerPower, addF subF mulF divF negF absF signF intPartF fractPartF, floorFtoI truncateFtoI roundFtoI ceilingFtoI, floatItoF floatFtoF, eqI..geqIF (24 comparison kernels), the Number-level dispatchers (add … xor, max, min, shifts, bitwise, power, sin … tan) and the tables unaryFunctors/binaryFunctors; statements only reachable for a third implementation of Number (test mocks) are dropped and listed (Generated.Arith.dropped)",
+            "hand-written and cross-checked by c07.kernels: Model/ArithBase.lean (Go int64 semantics: wrap-around, / % panics on 0, << >> panic on a negative count, & | ^ through BitVec 64); FloatOps is a parameter — its laws (Proofs/ArithFloat FloatLaws) are assumptions of the float theorems",
+            "hand-modelled, correspondence-checked by c07.queries: eval, Is, Equal … GreaterThanOrEqual (Model/Eval.lean); their normalised source text, the kernels each predicate calls and the predicate registration are regenerated facts tied by C07_tie_* theorems",
+            "not compared: values of math.Sin/Cos/Tan/Asin/Acos/Atan/Exp/Log/Pow/Atan2 (Go's libm vs C libm); their guard logic is translated and compared",
+        ],
+        modelled={"translated": ["engine/number.go: every function except eval, Is and the six comparison predicates"],
+                  "hand_modelled": ["eval", "Is", "Equal", "NotEqual", "LessThan", "GreaterThan", "LessThanOrEqual", "GreaterThanOrEqual"],
+                  "regenerated": ["unaryFunctors", "binaryFunctors", "constants", "comparison kernel dispatch", "Register2 of is/2 and the comparisons", "source text of eval/Is/Equal"],
+                  "observed_only": ["Parser (expression text -> term)", "Solutions.Scan into int64/float64", "math library values"]},
+        assumptions=["Number has exactly the implementations Integer and Float (the third one in the test suite is a mock)",
+                     "FloatLaws: comparisons of an integral float against float64(maxInt)=2^63 and float64(minInt)=-2^63 are exact, Integer(f) is exact for an integral f in range, IsInf/IsNaN classify the IEEE result",
+                     "intPow is only called with a non-negative exponent (integerPower guarantees it; proved for the translated integerPower)"],
+    ),
     "C18": dict(
         level_text="Proof: the operator-table state machine (Op/validateOp/CurrentOp and the operators methods) is modelled in Lean; for ALL histories of op/3 calls with arbitrary argument terms the ISO invariant (C18_inv), atomicity of failed updates (C18_atomic), the exact effect of successful updates (C18_update_exact: latest wins, 0 removes, other classes kept) and exactness of current_op/3 (C18_current_op_exact) are kernel-checked theorems, the default table being regenerated from bootstrap.pl. The model is tied to the Go code by the c18.hist correspondence stream (impl vs model, plus an independent executable ISO specification as oracle, plus reader/writer probes).",
         level_note="Trusted: Lean kernel; the hand-written model of Op/validateOp/CurrentOp (checked by differential runs, not proved); harness canonicalisation; reader/writer use of the table is only probed, not modelled. Pattern variables of current_op/3 assumed pairwise distinct.",
